@@ -88,6 +88,17 @@ impl Engine for MigrEngine {
         let mut it = Tape::fresh(mix(seed, 0x1A7D));
         knobs.insert("intruder_after_us".into(), if it.chance(1, 5) { it.below(30_000) as i64 } else { -1 });
         knobs.insert("dest_faults".into(), c.chance(1, 3) as i64);
+        // own tape: syncing the destination's directory fails now and then (hook H10) - a failure
+        // after the destination was linked must still leave nothing at the destination path
+        let mut ds = Tape::fresh(mix(seed, 0xD125));
+        let mut sim = sim;
+        if ds.chance(1, 6) {
+            sim.buggify.insert("migrate.dir_sync".into(), *ds.pick(&[300u32, 500, 1000]));
+            if ds.chance(1, 2) {
+                sim.buggify_limits.insert("migrate.dir_sync".into(), 1);
+            }
+            knobs.insert("dir_sync_faults".into(), 1);
+        }
         knobs.insert("synth_records".into(), if c.chance(1, 6) { 300 } else { 1 + c.below(12) as i64 });
         knobs.insert("synth_dups".into(), c.below(4) as i64);
         knobs.insert("synth_expired_winner".into(), c.chance(1, 3) as i64);
@@ -250,7 +261,10 @@ impl Engine for MigrEngine {
                     report.fail("destination-left-after-failure", format!("migrate() failed with {e} but something exists at the destination path"));
                 }
                 // was the failure justified?
+                let dir_sync_failed = sim.stats().fail_hits.get("migrate.dir_sync").copied().unwrap_or(0);
+                report.count("dir_sync_failures_with_failed_migration", (dir_sync_failed > 0) as u64);
                 let justified = existing
+                    || dir_sync_failed > 0
                     || (dest_faults && dest_fault_fired > 0)
                     || decoded.is_err()
                     || (has_ambiguous && !allow)
